@@ -127,9 +127,19 @@ var (
 	c12Once     sync.Once
 	c12Fixtures []*c12Fixture
 	c12Err      error
+	// codecs of the logical time types, built once, shared by every goroutine
+	c12Logical []c19Codec
 )
 
 func c12Build() {
+	for _, l := range c19Logicals {
+		cc, err := c19CodecFor(l, false)
+		if err != nil {
+			c12Err = err
+			return
+		}
+		c12Logical = append(c12Logical, cc)
+	}
 	names := []string{"Simple", "Widths", "Registered", "Nested", "MapShapes", "PtrShapes", "Omit"}
 	for fi, n := range names {
 		e := cat.Get(n)
@@ -289,6 +299,8 @@ func runC12(c c12Case) (bool, []string, error) {
 				touch("pool", op.Kind)
 			case "time":
 				touch("tz", op.Kind)
+			case "logical":
+				touch("codec", op.Kind)
 			}
 		}
 	}
@@ -647,6 +659,37 @@ func c12Run(g int, op c12Op, banks chan *avro.ResourceBank) error {
 		if i != len(f.abs) {
 			return fmt.Errorf("%d records read, %d written", i, len(f.abs))
 		}
+	case "logical":
+		// date / timestamp columns decoded and encoded with shared codecs, every goroutine its own values
+		li := op.Arg % len(c12Logical)
+		cc := c12Logical[li]
+		stored := int64(g)*100003 + int64(op.Arg)*7919 - 250000
+		var want time.Time
+		switch c19Logicals[li] {
+		case "date":
+			want = time.Unix(stored*86400, 0)
+		case "timestamp-millis":
+			want = time.UnixMilli(stored)
+		case "timestamp-micros":
+			want = time.UnixMicro(stored)
+		default:
+			want = time.Unix(0, stored)
+		}
+		body := ref.AppendLong(nil, stored)
+		var v c19T
+		rb := avro.NewReadBuf(body)
+		if err := cc.codec.Read(rb, unsafe.Pointer(&v)); err != nil || rb.Len() != 0 {
+			return fmt.Errorf("%s %d: err=%v, %d bytes left", c19Logicals[li], stored, err, rb.Len())
+		}
+		if !v.T.Equal(want) {
+			return fmt.Errorf("%s %d decoded on goroutine %d to %v, alone it decodes to %v", c19Logicals[li], stored, g, v.T.UTC(), want.UTC())
+		}
+		wb := avro.NewWriteBuf(nil)
+		w := c19T{T: want}
+		cc.codec.Write(wb, unsafe.Pointer(&w))
+		if !bytes.Equal(wb.Bytes(), body) {
+			return fmt.Errorf("%s: %v written on goroutine %d as % x, alone as % x", c19Logicals[li], want.UTC(), g, wb.Bytes(), body)
+		}
 	case "readdamaged":
 		// a file that ends early or is damaged: the read fails, as it would alone, after
 		// delivering intact records only — and whatever the failed read leaves behind
@@ -800,7 +843,7 @@ func c12Run(g int, op c12Op, banks chan *avro.ResourceBank) error {
 func drawC12(t *rapid.T) c12Case {
 	var c c12Case
 	n := gen.UniformRange(t, "goroutines", 2, 8)
-	kinds := []string{"schema", "codec", "register", "decode", "encode", "readfile", "closebanks", "time", "decode", "encode", "time", "readfile", "encodefile", "readabort", "evolved", "exotic", "readdamaged"}
+	kinds := []string{"schema", "codec", "register", "decode", "encode", "readfile", "closebanks", "time", "decode", "encode", "time", "readfile", "encodefile", "readabort", "evolved", "exotic", "readdamaged", "logical", "logical"}
 	for g := 0; g < n; g++ {
 		var p []c12Op
 		m := gen.UniformRange(t, "nops", 5, 40)
